@@ -2,6 +2,7 @@ package gram
 
 import (
 	"strings"
+	"text/scanner"
 
 	"github.com/alecthomas/participle/v2"
 	"github.com/alecthomas/participle/v2/lexer"
@@ -15,6 +16,7 @@ const (
 	ProfDefault  = 0 // text/scanner default lexer
 	ProfStateful = 1 // stateful lexer, WS and Comment elided through Elide()
 	ProfLower    = 2 // same rules with lower-case ws/comment (dropped inside the lexer)
+	ProfScanCfg  = 3 // text/scanner lexer made with NewTextScannerLexer(configure): comments kept, elided by the parser
 )
 
 // Term is a terminal of the input alphabet.
@@ -42,6 +44,9 @@ func P1Rules(lower bool) []lexer.SimpleRule {
 var (
 	defP1 = lexer.MustSimple(P1Rules(false))
 	defP2 = lexer.MustSimple(P1Rules(true))
+	defP3 = lexer.NewTextScannerLexer(func(s *scanner.Scanner) {
+		s.Mode = scanner.ScanIdents | scanner.ScanInts | scanner.ScanFloats | scanner.ScanStrings | scanner.ScanRawStrings | scanner.ScanChars | scanner.ScanComments
+	})
 )
 
 // LexerOptions returns the participle options selecting the profile's lexer.
@@ -51,6 +56,8 @@ func LexerOptions(profile int) []participle.Option {
 		return []participle.Option{participle.Lexer(defP1), participle.Elide("WS", "Comment")}
 	case ProfLower:
 		return []participle.Option{participle.Lexer(defP2)}
+	case ProfScanCfg:
+		return []participle.Option{participle.Lexer(defP3), participle.Elide("Comment")}
 	}
 	return nil
 }
@@ -62,6 +69,8 @@ func ProfileDef(profile int) lexer.Definition {
 		return defP1
 	case ProfLower:
 		return defP2
+	case ProfScanCfg:
+		return defP3
 	}
 	return lexer.TextScannerLexer
 }
@@ -71,12 +80,15 @@ func ElidedNames(profile int) []string {
 	if profile == ProfStateful {
 		return []string{"WS", "Comment"}
 	}
+	if profile == ProfScanCfg {
+		return []string{"Comment"}
+	}
 	return nil
 }
 
 // Terminals returns the terminal pool of a profile.
 func Terminals(profile int) []Term {
-	if profile == ProfDefault {
+	if profile == ProfDefault || profile == ProfScanCfg {
 		return []Term{
 			{"a", "Ident"}, {"b", "Ident"}, {"c", "Ident"}, {"d", "Ident"}, {"x", "Ident"}, {"y", "Ident"},
 			{"1", "Int"}, {"2", "Int"}, {`"s"`, "String"},
@@ -93,7 +105,7 @@ func Terminals(profile int) []Term {
 
 // RefTypes returns the token type names a grammar may reference.
 func RefTypes(profile int) []string {
-	if profile == ProfDefault {
+	if profile == ProfDefault || profile == ProfScanCfg {
 		return []string{"Ident", "Int", "String"}
 	}
 	return []string{"Ident", "Int", "Kw", "Punct"}
@@ -121,14 +133,14 @@ func wordyStart(t string) bool {
 func Render(profile int, toks []string, style int, r *mon.RNG) string {
 	var sb strings.Builder
 	comment := func() string {
-		if profile == ProfDefault {
+		if profile == ProfDefault || profile == ProfScanCfg {
 			return "// c" + r.Pick("", " x", " a b") + "\n"
 		}
 		return "# c" + r.Pick("", " x", " a b") + "\n"
 	}
 	sep := func(prev, next string, edge bool) string {
 		need := wordy(prev) && wordyStart(next)
-		if profile == ProfDefault && prev != "" && next != "" {
+		if (profile == ProfDefault || profile == ProfScanCfg) && prev != "" && next != "" {
 			// punctuation pairs could merge into other scanner tokens only for comments ("/" is not in the pool); strings are self-delimited
 			if prev == "-" || prev == "+" {
 				need = need || false
